@@ -2,6 +2,7 @@ package main
 
 import (
 	"fmt"
+	"os"
 	"go/constant"
 	"go/token"
 	"go/types"
@@ -69,6 +70,10 @@ type Engine struct {
 	assumeTexts map[string]bool
 	UnwoundAt   []string
 	UnknownBranches int
+	snaps       map[int]*Mem
+	globalIDs   map[*ssa.Global][2]int
+	overlay     map[string]string
+	srcLines    map[string][]string
 	NoDiamond   bool
 	Diamonds    int
 }
@@ -115,6 +120,12 @@ type State struct {
 	allocLimit *Term
 	observe []obsRec
 	reached []string
+	snaps   []snapRec
+}
+
+type snapRec struct {
+	obj int
+	mem *Mem
 }
 
 type obsRec struct {
@@ -126,6 +137,7 @@ func (st *State) clone() *State {
 	n := &State{pc: append([]*Term(nil), st.pc...), pending: append([]pendOb(nil), st.pending...), model: st.model, stopDepth: st.stopDepth, onDone: st.onDone, allocLimit: st.allocLimit}
 	n.observe = append([]obsRec(nil), st.observe...)
 	n.reached = append([]string(nil), st.reached...)
+	n.snaps = append([]snapRec(nil), st.snaps...)
 	n.pools = map[int][]Value{}
 	n.log = append([]string(nil), st.log...)
 	for k, v := range st.pools {
@@ -387,9 +399,9 @@ func (e *Engine) check(conds []*Term) (Result, *Model) {
 			return RSat, m
 		}
 	}
-	mts := e.modelTerms()
 	// array cells: ask for every select-on-input-array term of this query together with its index
-	pre := TS.selectsIn(conds)
+	pre, vars := TS.selectsIn(conds)
+	mts := e.modelTerms(vars)
 	for _, sel := range pre {
 		mts = append(mts, sel)
 		if !sel.Args[1].IsConst() {
@@ -411,8 +423,11 @@ func (e *Engine) check(conds []*Term) (Result, *Model) {
 			}
 		}
 	}
-	if r != RSat || raw == nil {
+	if r != RSat {
 		return r, nil
+	}
+	if raw == nil { // no variables in the query: any assignment is a model
+		raw = &Model{BV: map[string]uint64{}, B: map[string]bool{}, Arr: map[string]*ArrModel{}}
 	}
 	m := &Model{BV: map[string]uint64{}, B: map[string]bool{}, Arr: map[string]*ArrModel{}}
 	val := func(t *Term) uint64 {
@@ -450,14 +465,18 @@ func (e *Engine) feasible(st *State, extra ...*Term) Result {
 	return r
 }
 
-func (e *Engine) modelTerms() []*Term {
+func (e *Engine) modelTerms(vars map[*Term]bool) []*Term {
 	var mt []*Term
-	mt = append(mt, e.inputs...)
+	for _, in := range e.inputs {
+		if vars[in] {
+			mt = append(mt, in)
+		}
+	}
 	for _, ia := range e.inputArrs {
-		if !ia.len.IsConst() {
+		if !ia.len.IsConst() && vars[ia.len] {
 			mt = append(mt, ia.len)
 		}
-		if ia.max <= 32 {
+		if ia.max <= 32 && vars[ia.arr] {
 			for i := 0; i < ia.max; i++ {
 				mt = append(mt, Select(ia.arr, c64(uint64(i))))
 			}
@@ -637,13 +656,31 @@ func (e *Engine) globalPtr(st *State, g *ssa.Global) PtrV {
 	if id, ok := st.globals[g]; ok {
 		return PtrV{Obj: id}
 	}
+	// Globals are materialised lazily, with object ids that depend only on the global (not on the path
+	// that touches it first), so that the same global is the same object on every path.
+	if e.globalIDs == nil {
+		e.globalIDs = map[*ssa.Global][2]int{}
+	}
+	ids, ok := e.globalIDs[g]
+	if !ok {
+		e.nextObj += 2
+		ids = [2]int{e.nextObj - 1, e.nextObj}
+		e.globalIDs[g] = ids
+	}
 	t := deref(g.Type())
+	saved := e.nextObj
+	e.nextObj = ids[0] - 1
 	p := e.allocFor(st, t, "global:"+g.String())
+	e.nextObj = saved
 	st.globals[g] = p.Obj
 	// error-typed globals of non-target packages: distinct opaque errors
 	if g.Pkg != nil && !e.targets[g.Pkg.Pkg.Path()] {
 		if types.Identical(t, types.Universe.Lookup("error").Type()) {
-			e.store(st, p, e.newError(st, g.String(), nil))
+			saved := e.nextObj
+			e.nextObj = ids[1] - 1
+			ev := e.newError(st, g.String(), nil)
+			e.nextObj = saved
+			e.store(st, p, ev)
 		}
 	}
 	return p
@@ -692,6 +729,8 @@ func (e *Engine) mergeCall(st *State, f *Frame, x *ssa.Call, fn *ssa.Function, a
 	}
 	var results []res
 	ok := true
+	newObjs := map[int]*Obj{}
+	newGlobals := map[*ssa.Global]int{}
 	base := st.clone()
 	depth := len(base.frames)
 	base.stopDepth = depth
@@ -707,6 +746,16 @@ func (e *Engine) mergeCall(st *State, f *Frame, x *ssa.Call, fn *ssa.Function, a
 			}
 		}
 		results = append(results, res{append([]*Term(nil), s.pc[npc:]...), s.frames[depth-1].env[x]})
+		for id, o := range s.heap {
+			if _, have := st.heap[id]; !have {
+				newObjs[id] = o
+			}
+		}
+		for g, id := range s.globals {
+			if _, have := st.globals[g]; !have {
+				newGlobals[g] = id
+			}
+		}
 	}
 	e.pushFrame(base, fn, args, nil, x)
 	outerForks := e.extraForks
@@ -717,51 +766,117 @@ func (e *Engine) mergeCall(st *State, f *Frame, x *ssa.Call, fn *ssa.Function, a
 	if !ok || len(results) == 0 {
 		return false
 	}
-	join := func(get func(v Value) (*Term, bool)) (*Term, bool) {
-		last, isT := get(results[len(results)-1].ret)
-		if !isT {
-			return nil, false
-		}
-		acc := last
-		for i := len(results) - 2; i >= 0; i-- {
-			t, isT := get(results[i].ret)
-			if !isT || t.S != acc.S {
-				return nil, false
-			}
-			acc = Ite(And(results[i].ext...), t, acc)
-		}
-		return acc, true
+	// Group the callee's paths by the shape of their non-scalar result components (e.g. which error
+	// object is returned); within a group the scalar components are joined into ite-terms. One group:
+	// the caller continues as a single state. Several groups: one successor state per group.
+	type group struct {
+		key string
+		idx []int
 	}
-	switch r0 := results[0].ret.(type) {
-	case *Term:
-		m, good := join(func(v Value) (*Term, bool) { t, k := v.(*Term); return t, k })
+	var groups []*group
+	byKey := map[string]*group{}
+	for i, r := range results {
+		k, good := shapeKey(r.ret)
 		if !good {
 			return false
 		}
-		f.env[x] = m
-	case TupleV:
-		out := make(TupleV, len(r0))
-		for i := range r0 {
-			i := i
-			m, good := join(func(v Value) (*Term, bool) {
-				tv, k := v.(TupleV)
-				if !k || i >= len(tv) {
-					return nil, false
-				}
-				t, k2 := tv[i].(*Term)
-				return t, k2
-			})
+		g := byKey[k]
+		if g == nil {
+			g = &group{key: k}
+			byKey[k] = g
+			groups = append(groups, g)
+		}
+		g.idx = append(g.idx, i)
+	}
+	if os.Getenv("VSYM_DEBUG_MERGE") != "" {
+		fmt.Fprintf(os.Stderr, "merge %s: %d results, %d groups\n", fn.Name(), len(results), len(groups))
+		for _, g := range groups {
+			fmt.Fprintf(os.Stderr, "   %s x%d\n", g.key, len(g.idx))
+		}
+	}
+	if len(groups) > 8 {
+		return false
+	}
+	joined := make([]Value, len(groups))
+	conds := make([]*Term, len(groups))
+	for gi, g := range groups {
+		last := g.idx[len(g.idx)-1]
+		acc := results[last].ret
+		var disj []*Term
+		disj = append(disj, And(results[last].ext...))
+		for k := len(g.idx) - 2; k >= 0; k-- {
+			r := results[g.idx[k]]
+			c := And(r.ext...)
+			v, good := mergeVal(c, r.ret, acc)
 			if !good {
 				return false
 			}
-			out[i] = m
+			acc = v
+			disj = append(disj, c)
 		}
-		f.env[x] = out
-	default:
-		return false
+		joined[gi] = acc
+		conds[gi] = Or(disj...)
 	}
 	e.Merged++
+	for id, o := range newObjs {
+		st.heap[id] = o
+	}
+	for g, id := range newGlobals {
+		st.globals[g] = id
+	}
+	if len(groups) == 1 {
+		f.env[x] = joined[0]
+		return true
+	}
+	for gi := 1; gi < len(groups); gi++ {
+		o := st.clone()
+		of := o.frames[len(o.frames)-1]
+		of.env[x] = joined[gi]
+		o.pc = append(o.pc, conds[gi])
+		o.model = nil
+		e.extraForks = append(e.extraForks, o)
+		e.Forks++
+	}
+	f.env[x] = joined[0]
+	st.pc = append(st.pc, conds[0])
+	st.model = nil
 	return true
+}
+
+// shapeKey describes the non-scalar structure of a call result; results with equal keys can be joined.
+func shapeKey(v Value) (string, bool) {
+	switch tv := v.(type) {
+	case nil:
+		return "-", true
+	case *Term:
+		return "t" + tv.S.String(), true
+	case TupleV:
+		var sb strings.Builder
+		for _, x := range tv {
+			k, ok := shapeKey(x)
+			if !ok {
+				return "", false
+			}
+			sb.WriteString(k)
+			sb.WriteByte(';')
+		}
+		return sb.String(), true
+	case IfaceV:
+		if tv.T == nil {
+			return "nil", true
+		}
+		if p, ok := tv.V.(PtrV); ok {
+			return fmt.Sprintf("i:%s:%d:%v", tv.T.String(), p.Obj, p.Path), true
+		}
+		return "", false
+	case SliceV:
+		return fmt.Sprintf("s:%d", tv.Obj), true
+	case StringV:
+		return fmt.Sprintf("str:%d", tv.Obj), true
+	case PtrV:
+		return fmt.Sprintf("p:%d:%v", tv.Obj, tv.Path), true
+	}
+	return "", false
 }
 
 func (e *Engine) pushFrame(st *State, fn *ssa.Function, args []Value, bind []Value, call *ssa.Call) {
@@ -1769,6 +1884,49 @@ func (e *Engine) builtin(st *State, f *Frame, x *ssa.Call, name string, args []V
 		return n
 	case "append":
 		return e.appendSlice(st, x, args[0].(SliceV), args[1])
+	case "SliceData":
+		a := args[0].(SliceV)
+		if a.Obj == 0 {
+			return PtrV{}
+		}
+		return PtrV{Obj: a.Obj, Path: []PElem{{Idx: a.Off}}}
+	case "StringData":
+		a := args[0].(StringV)
+		if a.Obj == 0 {
+			return PtrV{}
+		}
+		return PtrV{Obj: a.Obj, Path: []PElem{{Idx: a.Off}}}
+	case "String":
+		p := args[0].(PtrV)
+		n := SExt(64, args[1].(*Term))
+		if p.Obj == 0 {
+			return StringV{Off: c64(0), Len: c64(0)}
+		}
+		return StringV{Obj: p.Obj, Off: p.Path[0].Idx, Len: n}
+	case "clear":
+		switch a := args[0].(type) {
+		case SliceV:
+			if a.Obj == 0 {
+				return nil
+			}
+			o := e.mutObj(st, a.Obj)
+			if o.Kind == OArr {
+				o.Arr = MemCopy(o.Arr, a.Off, MemZero(o.W), c64(0), a.Len)
+				return nil
+			}
+			if !a.Off.IsConst() || !a.Len.IsConst() {
+				panic("clear of non-scalar slice with symbolic bounds unsupported")
+			}
+			for i := a.Off.C; i < a.Off.C+a.Len.C; i++ {
+				o.Vec[i] = zero(o.Typ)
+			}
+			return nil
+		case MapV:
+			if a.Obj != 0 {
+				e.mutObj(st, a.Obj).Ents = nil
+			}
+			return nil
+		}
 	case "min", "max":
 		a, b := args[0].(*Term), args[1].(*Term)
 		_, signed := intInfo(x.Type())
@@ -1947,6 +2105,7 @@ func (e *Engine) intrinsic(st *State, f *Frame, x *ssa.Call, fn *ssa.Function, n
 		st.model = nil
 		return Const(t.S.W, vals[0]), true
 	case "verifAssume":
+		e.noteAssume(x)
 		e.assume(st, args[0].(*Term))
 		return nil, true
 	case "verifTier":
@@ -1993,6 +2152,35 @@ func (e *Engine) intrinsic(st *State, f *Frame, x *ssa.Call, fn *ssa.Function, n
 		return BoolC(a.Obj != 0 && a.Obj == b.Obj), true
 	case "verifNote":
 		return nil, true
+	case "verifImplies":
+		return Implies(args[0].(*Term), args[1].(*Term)), true
+	case "verifOr":
+		return Or(args[0].(*Term), args[1].(*Term)), true
+	case "verifAnd":
+		return And(args[0].(*Term), args[1].(*Term)), true
+	case "verifMerge":
+		e.mergeFns[e.strConst(st, args[0])] = true
+		return nil, true
+	case "verifSnapshot":
+		b := args[0].(SliceV)
+		if b.Obj != 0 {
+			if e.snaps == nil {
+				e.snaps = map[int]*Mem{}
+			}
+			st.snaps = append(st.snaps, snapRec{b.Obj, e.obj(st, b.Obj).Arr})
+		}
+		return nil, true
+	case "verifUnchanged":
+		b := args[0].(SliceV)
+		if b.Obj == 0 {
+			return True(), true
+		}
+		for _, sr := range st.snaps {
+			if sr.obj == b.Obj {
+				return BoolC(e.obj(st, b.Obj).Arr == sr.mem), true
+			}
+		}
+		return False(), true
 	case "verifBytesEq":
 		a, b := args[0].(SliceV), args[1].(SliceV)
 		return e.stringEq(st, StringV{Obj: a.Obj, Off: a.Off, Len: a.Len}, StringV{Obj: b.Obj, Off: b.Off, Len: b.Len}), true
@@ -2021,6 +2209,12 @@ func (e *Engine) intrinsic(st *State, f *Frame, x *ssa.Call, fn *ssa.Function, n
 		return nil, true
 	case "fmt.Sprintf":
 		return e.constString("<sprintf>"), true
+	case "errors.Is":
+		return BoolC(e.errorsIs(st, args[0].(IfaceV), args[1].(IfaceV), 0)), true
+	case "sort.Strings":
+		return nil, true
+	case "strings.Join":
+		return e.constString("<strings.Join>"), true
 	case "errors.New":
 		return e.newError(st, "errors.New:"+e.strConst(st, args[0]), nil), true
 	case "math.Float32bits", "math.Float64bits", "math.Float32frombits", "math.Float64frombits":
@@ -2185,4 +2379,34 @@ func (e *Engine) addInput(t *Term) {
 		}
 	}
 	e.inputs = append(e.inputs, t)
+}
+
+// errorsIs models errors.Is on the engine's error objects: identity, then the %w chain of fmt.Errorf.
+func (e *Engine) errorsIs(st *State, err, target IfaceV, depth int) bool {
+	if err.T == nil || target.T == nil {
+		return err.T == nil && target.T == nil
+	}
+	if depth > 16 {
+		return false
+	}
+	if types.Identical(err.T, target.T) {
+		if pa, ok := err.V.(PtrV); ok {
+			if pb, ok := target.V.(PtrV); ok && ptrEq(pa, pb) {
+				return true
+			}
+		}
+	}
+	if p, ok := err.V.(PtrV); ok && p.Obj != 0 {
+		if pt, ok := err.T.(*types.Pointer); ok {
+			if n, ok := pt.Elem().(*types.Named); ok && n == e.errType {
+				o := e.obj(st, p.Obj)
+				for _, w := range o.Vec {
+					if wi, ok := w.(IfaceV); ok && e.errorsIs(st, wi, target, depth+1) {
+						return true
+					}
+				}
+			}
+		}
+	}
+	return false
 }
